@@ -11,4 +11,6 @@ const (
 	zzICLine   = 4
 	zzHoldTok  = 2
 	zzHoldLine = 2
+	zzIdxLit  = 3
+	zzIdxLine = 6
 )
